@@ -185,7 +185,9 @@ class LasWriter:
             self.done = True
             self.header.number_of_evlrs = len(evlrs)
             self.header.start_of_first_evlr = self.dest.tell()
-            evlrs.write_to(self.dest, as_extended=True)
+            evlrs.write_to(
+                self.dest, as_extended=True, encoding_errors=self.encoding_errors
+            )
 
     def close(self) -> None:
         """Closes the writer.
